@@ -10,7 +10,9 @@ use netflow_parser::variable_versions::{ipfix, v9};
 use netflow_parser::NetflowPacket;
 use std::time::Instant;
 
-const IDS: [u16; 3] = [256, 257, 300];
+/// ids probed when absent: the alphabet's ids, one never defined, and ids that collide with a defined one under a
+/// truncated / masked lookup (id + 256, id with the top bit set)
+const IDS: [u16; 6] = [256, 257, 300, 512, 513, 33024];
 
 fn has_records_for(res: &[NetflowPacket], proto: u16, id: u16) -> bool {
     res.iter().any(|e| match e {
